@@ -2,14 +2,15 @@
 From DL Require Import Base Lexer Parser.
 #[local] Open Scope Z_scope.
 
-(* int(a**b): exact for b >= 0; for b < 0 Python computes a float and truncates it. *)
+(* int(a**b): exact for b >= 0; for b < 0 Python converts both operands to float, computes a float and truncates
+   it.  A float of magnitude >= 2^53 is an even integer, so the parity of a huge negative exponent is lost. *)
 Definition eval_pow (a b:Z) : res Z :=
   if 0 <=? b then Ok (a ^ b) else
   (* both operands are converted to float first: OverflowError beyond the float range (boundary not modelled) *)
   if (2^1000 <=? Z.abs a) || (2^1000 <=? Z.abs b) then Err Unmodelled else
   if a =? 0 then Err ZeroDivErr else
   if a =? 1 then Ok 1 else
-  if a =? -1 then Ok (if Z.even b then 1 else -1) else Ok 0.
+  if a =? -1 then Ok (if (2^53 <=? Z.abs b) || Z.even b then 1 else -1) else Ok 0.
 Definition eval_bin (o:op) (a b:Z) : res Z :=
   match o with
   | ADD => Ok (a+b) | SUB => Ok (a-b) | MUL => Ok (a*b)
